@@ -318,7 +318,18 @@ def gen_struct(repo, default_src, arg):
                 continue
             lines.append('    ' + t)
         head = src[m.start():bo].strip()
-        return 'pub ' + head + ' {\n' + '\n'.join(lines) + '\n}\n'
+        # derive=Clone,Copy: re-attach the derives the code relies on (checked against the source's own derive line)
+        der = ''
+        if 'derive' in opts:
+            want = [d_.strip() for d_ in opts['derive'].split(',')]
+            pre = src[max(0, m.start() - 300):m.start()]
+            dm = re.findall(r'#\[derive\(([^)]*)\)\]', pre)
+            have = set(x.strip() for x in ','.join(dm).split(','))
+            missing = [w for w in want if w not in have]
+            if missing:
+                raise ExtractError('struct %s does not derive %s in the source' % (name, missing))
+            der = '#[derive(%s)]\n' % ', '.join(want)
+        return der + 'pub ' + head + ' {\n' + '\n'.join(lines) + '\n}\n'
     raise ExtractError("anchor lost: struct %s" % name)
 
 
